@@ -4,6 +4,36 @@ import json, sys
 
 CHECKS = {
  # id: (engine, category, technique, level text, level note, design_ref)
+ "C05": ("mcx", "model_checking",
+         "stateless model checking of the real optimiser: exhaustive enumeration of scripted environment histories (random draws + score answers) with bounded deviations",
+         "The optimiser's only nondeterminism (three random draws per step through the verif hook, and the score answers of a probe State) is owned by the harness; every history with at most 1 (quick) / 2 (thorough) departures from 4 baseline answer patterns, plus a full product to depth 3, is executed for every configuration of the kt_start = 0 grid (kt_finish x kt_ratio x steps/inner_steps x max_step_size x convergence). A reference model of all consistent accept/reject histories decides monotonicity of accepted scores and returned >= input.",
+         "Trusted: rand 0.7.3 word decoding (calibrated at every start), probe landscape consistency. Histories longer than 12 steps / more deviations are outside the bound. Real states are covered through C08's chained-stage search in hill-climb mode.",
+         "5/C05"),
+ "C06": ("mcx", "model_checking",
+         "stateless model checking of the real optimiser against a reference model of admissible current states",
+         "Every scripted history (<= 1/2 deviations from 4 baselines, full product to depth 3/4) on probes with 1-3 shared parameters on and off their bounds, across temperatures 0 / finite / 1e300 and multi-loop step layouts. The reference model keeps every state the run can be in; each proposal must differ from one of them in at most one parameter bit-for-bit and the returned state must be one of them.",
+         "Trusted: as C05. The reference model is deliberately agnostic about which decision was taken, so acceptance bugs do not raise C06 alarms.",
+         "5/C06"),
+ "C07": ("mcx", "model_checking",
+         "stateless model checking of scripted histories plus exact threshold measurement by replay bisection",
+         "Deterministic clauses on every step of every scripted history (<= 2/3 deviations, product to depth 3/4): invalid => rejected, better/equal => accepted, worse at kT = 0 => rejected, worse in the first loop => accepted iff u < exp(-d/kT_start). Quantitative clause: for a 7x6x4x2 grid of (d, kT, step, layout) the acceptance threshold is measured to the last bit by bisecting the scripted uniform draw over 53 replays and compared with exp(-d/kT).",
+         "Trusted: uniformity of rand's f64 draw; calibration of word decoding.",
+         "5/C07"),
+ "C18": ("mcx", "model_checking",
+         "exact per-step temperature measurement by replay bisection of the scripted acceptance draw, over a configuration grid",
+         "For every configuration of the (kt_start, kt_finish | kt_ratio | neither, steps, inner_steps) grid incl. non-multiples and inner > steps, the temperature governing every single step is measured (kT = -d/ln p, p found by 53-replay bisection) and compared with the schedule of the property: constant inside a loop, one factor between loops, factor = 1 - kt_ratio, last loop within one measured cooling step of kt_finish, zero stays zero, first loop at kt_start.",
+         "Trusted: as C07. Measurable range of kT is [1e-13, 1e13].",
+         "5/C18"),
+ "C19": ("mcx", "model_checking",
+         "stateless model checking of scripted rejection histories against the step bound",
+         "Rejection histories 0..100 % per loop (4 baselines and every departure of <= 1/2 fields), 1..12 inner loops, 4 step sizes, 3 parameter ranges, extreme and moderate displacement draws, interior starts so clamping cannot mask a move: every proposal differs from an admissible current state in one parameter by at most max_step_size * range / 2.",
+         "Trusted: as C05.",
+         "5/C19"),
+ "C20": ("mcx+cli", "model_checking",
+         "exhaustive configuration grid x scripted histories on the real optimiser (step counts by tagged draws, prefix comparison with/without convergence) plus a covering sweep of the real binary's argument grid",
+         "Library: complete grid steps {0..8,12} x inner_steps {0..5,1000} x kt_start x convergence {none,-1,0,1e-3,inf} x 3 answer patterns x <=1 deviation: no panic, proposal count in [steps - min(inner,steps), steps], bit-exact prefix relation, early exit only at a loop boundary after six consecutive sub-threshold loops. CLI: covering selection of the argument grid through the release binary: exit 0 with parsable .json/.svg, or non-zero with an error message, never a panic.",
+         "Trusted: proposal = score() call preceded by a tagged displacement draw. CLI grid is a covering selection (every zero-valued corner kept), not the full product.",
+         "5/C20"),
  "C02": ("geo", "exploration",
          "exhaustive lattice enumeration of shapes x cells x groups against exact area oracles",
          "Every point of a finite lattice of shapes (n-gons, radial polygons, circle, 219 trimers), cells and groups is built as a real state through the crate's deserialiser and its score, Shape::area and Cell2::area are compared with shoelace / exact disc-union / |AxB| oracles (1e-9 relative). Exhaustive over the lattice, not over the reals.",
@@ -76,6 +106,8 @@ def main():
             "add_only": True,
         },
         "engines": [
+            {"name": "mcx", "path": "harness/src/mcx.rs, harness/src/mc_props.rs", "serves_properties": ["C05", "C06", "C07", "C18", "C19", "C20"], "kind_free_text": "stateless model checker for the real MCOptimiser: the three random draws per step are scripted through the crate's verif hook and score() answers through a probe State; enumerates all histories within a deviation bound, measures acceptance thresholds by replay bisection"},
+            {"name": "cli", "path": "harness/src/cli.rs", "serves_properties": ["C20"], "kind_free_text": "real release binary over an argument grid; in-process analyse_state via include! of /repo/src/main.rs"},
             {"name": "geo", "path": "harness/src/geo1.rs", "serves_properties": ["C02", "C12", "C13", "C14", "C15"], "kind_free_text": "exhaustive enumeration of finite input lattices built from the code's thresholds, bounds and exact alignments, judged by independent closed-form oracles"},
             {"name": "sym", "path": "harness/src/sym.rs", "serves_properties": ["C16", "C17"], "kind_free_text": "complete enumeration of finite tables and of a string grammar against independent evaluators"},
         ],
